@@ -42,7 +42,7 @@ impl Method for FixedMethod {
         }
 
         if config.get_fixed_suggestion() {
-            self.typed.push(keycode_to_char(key));
+            self.typed.extend(keycode_to_char(key));
         }
 
         self.create_suggestion(data, config)
